@@ -990,6 +990,8 @@ def gen_c11(T, tier, seed, budget, out: Outcome):
         except Exception:  # noqa: BLE001
             pass
     rnd.shuffle(sents)
+    # the accepted sentence with no atoms (lean/AUDIT.md finding 5; Contracts.Final.tucan_of_empty)
+    out.run(T, "c11", {"s": "/", "t": "/", "op": "identity on the empty molecule"}, None)
     for s in sents:
         if time.time() - t0 > budget or len(out.violations) >= 3:
             return
